@@ -2,7 +2,19 @@
 """Writes the table of DESIGN.md section 13.4 from the report of tools/regress_seeded.py and the seeds' meta.json."""
 import json, os, re, sys
 HERE = os.path.dirname(os.path.dirname(os.path.abspath(__file__)))
-rep = json.load(open(sys.argv[1] if len(sys.argv) > 1 else '/tmp/wt/seeded-report.json'))
+# several report files (one per regression lane) may be given; a later entry for the same seed replaces an earlier one
+rep_by_id = {}
+for path in (sys.argv[1:] or ['/tmp/wt/seeded-report.json']):
+    for row in json.load(open(path)):
+        rep_by_id[row[0]] = row
+
+
+def _key(sid):
+    p, k = sid.split('-')
+    return (p, int(k))
+
+
+rep = [rep_by_id[k] for k in sorted(rep_by_id, key=_key)]
 rows = ['| seed | change (file: what) | caught by (quick tier) | first identities reported |', '|---|---|---|---|']
 for sid, code, wall, idents in rep:
     m = json.load(open(os.path.join(HERE, 'seeded', sid, 'meta.json')))
@@ -18,4 +30,4 @@ s = open(p).read()
 a, b = s.index('<!-- SEEDED-TABLE-BEGIN -->'), s.index('<!-- SEEDED-TABLE-END -->')
 s = s[:a] + '<!-- SEEDED-TABLE-BEGIN -->\n' + table + s[b:]
 open(p, 'w').write(s)
-print('%d rows, %d caught' % (len(rep), sum(1 for r in rep if r[1] == 1)))
+print('%d rows, %d caught; not caught: %s' % (len(rep), sum(1 for r in rep if r[1] == 1), [r[0] for r in rep if r[1] != 1]))
